@@ -123,6 +123,14 @@ theorem regress_huge_timestamp : errOf (parseDoc "a 1 1000000\na 1 2e0\n# EOF\n"
 
 theorem regress_huge_timestamp_forward : isOkDoc "a 1 2e0\na 1 1000000\n# EOF\n" = true := by decide
 
+/-- bc8d08a (F18): a backslash-escaped quote inside an exemplar label value no longer derails the exemplar state
+machine (was ValueError "Invalid line") -/
+theorem regress_exemplar_escaped_quote :
+    isOkDoc "# TYPE a counter\na_total 1 # {t=\"q\\\"q\"} 1\n# EOF\n" = true := by decide
+
+/-- 64745db: `-0.5` is not read as `Timestamp(0, 500000000)` any more (the sign was lost); it is left to `float()` -/
+theorem regress_neg_zero_timestamp : (parseTimestamp toyP cs!"-0.5").toOption ≠ some (some (.stamp 0 500000000)) := by decide
+
 /-! ## the whole parser -/
 
 /-- **the OpenMetrics parser is total**: for every input string and every choice of the number parameters and regex
